@@ -22,6 +22,9 @@ pub fn hash_str(s: &str) -> u64 {
 #[derive(Clone, Debug)]
 pub struct Rng {
     s: [u64; 4],
+    /// a few values this run keeps coming back to (colours / bus words): stale-state bugs
+    /// need the same value at two different moments
+    pub palette: [u32; 3],
 }
 
 impl Rng {
@@ -35,7 +38,11 @@ impl Rng {
         if s == [0; 4] {
             s[0] = 1;
         }
-        Rng { s }
+        let mut r = Rng { s, palette: [0; 3] };
+        for i in 0..3 {
+            r.palette[i] = r.next_u64() as u32;
+        }
+        r
     }
 
     #[inline]
